@@ -134,6 +134,12 @@ def tokTypeStr : Nat × Nat × Option Model.TokErr → String
 
 def boolStr (b : Bool) : String := if b then "true" else "false"
 
+/-- a decimal with the given digits (at most 800 are kept, like `copy(d.d[:], digits)`) -/
+def decimalOf (ds : Bytes) (dp : Int) (neg tr : Bool) : FP.Decimal :=
+  let nd := min ds.size Gen.fpDecimalDigits
+  let d := (List.range nd).foldl (fun (acc : Array UInt8) i => acc.set! i ds[i]!) FP.Decimal.zero.d
+  { d := d, nd := nd, dp := dp, neg := neg, trunc := tr }
+
 open RJson.Model in
 def apiOp (op : String) (args : List String) : Option String :=
   match op, args with
@@ -240,6 +246,15 @@ def apiOp (op : String) (args : List String) : Option String :=
   | "fpEL", [m, e, n] => do
     let m ← m.toNat?; let e ← parseInt? e
     pure (match FP.eiselLemire64 m e (n == "true") with | some b => s!"some {b}" | none => "none")
+  | "fpShift", [d, dp, neg, tr, k] => do
+    let ds ← hexToBytes d; let dp ← parseInt? dp; let k ← parseInt? k
+    let a := decimalOf ds dp (neg == "true") (tr == "true")
+    pure (match a.shift k with
+      | none => "panic"
+      | some b => s!"{hexOrDash b.digits} {b.dp} {boolStr b.neg} {boolStr b.trunc}")
+  | "fpRounded", [d, dp, neg, tr] => do
+    let ds ← hexToBytes d; let dp ← parseInt? dp
+    pure (toString (decimalOf ds dp (neg == "true") (tr == "true")).roundedInteger)
   | "fpDecimal", [d] => do
     let d ← hexToBytes d
     pure (match FP.Decimal.set d with
